@@ -66,6 +66,28 @@ pub fn full(ff: (u32, u32)) -> Rec {
 
 /// The record set: (name, record). Index 0 is everything-present, index 1 everything-missing.
 pub fn record_set(ff: (u32, u32)) -> Vec<(String, Rec)> {
+    record_set_for(ff, false)
+}
+
+/// `bcf`: also the records only BCF can hold under a header with samples — a sites-only record
+/// (no FORMAT at all: `n_fmt = 0`, `l_indiv = 0`), with and without INFO.
+pub fn record_set_for(ff: (u32, u32), bcf: bool) -> Vec<(String, Rec)> {
+    let mut out = record_set_inner(ff);
+    if bcf {
+        let f = full(ff);
+        let mut v = f.clone();
+        v.format.clear();
+        v.samples.clear();
+        out.push(("sites-only".to_string(), v));
+        out.push((
+            "sites-only-empty".to_string(),
+            Rec { chrom: "sq1".into(), pos: 33, refb: "G".into(), ..Rec::default() },
+        ));
+    }
+    out
+}
+
+fn record_set_inner(ff: (u32, u32)) -> Vec<(String, Rec)> {
     let f = full(ff);
     let mut out: Vec<(String, Rec)> = Vec::new();
     let mut add = |name: &str, r: Rec| out.push((name.to_string(), r));
